@@ -151,6 +151,33 @@ class Space:
                                 * inv(4))
         return out
 
+    def two_body_ten(self, ten, vec):
+        """1/4 sum ten[p,q,r,s] a+_p a+_q a_s a_r for an arbitrary tensor
+        (dict), antisymmetric in (p,q) and in (r,s)"""
+        out = Vec()
+        n = self.n
+        for det, c in vec.items():
+            occ = [x for x in range(n) if det & (1 << x)]
+            for r, s in itertools.permutations(occ, 2):
+                r1 = act(False, r, det)
+                r2 = act(False, s, r1[1])
+                for p in range(n):
+                    for q in range(n):
+                        if p == q:
+                            continue
+                        m = ten.get((p, q, r, s), 0)
+                        if not m:
+                            continue
+                        r3 = act(True, q, r2[1])
+                        if r3 is None:
+                            continue
+                        r4 = act(True, p, r3[1])
+                        if r4 is None:
+                            continue
+                        out.add(r4[1], c * r1[0] * r2[0] * r3[0] * r4[0] * m
+                                * inv(4))
+        return out
+
     def meanfield(self):
         n = self.n
         return [[-sum(self.v(p, k, q, k) for k in self.occ) % P
